@@ -99,6 +99,12 @@ ElemKwargs(d, env, i, t) ==
     LET ps == d.funcs[i].params IN [k \in DOMAIN ps |-> <<ps[k], ElemArg(d, env, i, ps[k], t)>>]
 ElemArgs(d, env, i, t) ==
     LET ps == d.funcs[i].params IN [k \in DOMAIN ps |-> ElemArg(d, env, i, ps[k], t)]
+(* optional field `rescpus` = name of a parameter: the function receives (resources_variable) Resources whose cpus count   *)
+(* is the length of that WHOLE argument (callable resources, resources_scope="map"), and its result depends on it:        *)
+(* one more argument atom "@cpus<n>"                                                                                       *)
+HasResCpus(fn) == "rescpus" \in DOMAIN fn /\ fn.rescpus # ""
+ResAtoms(d, env, i) == LET fn == d.funcs[i] IN
+    IF HasResCpus(fn) THEN <<Atom("@cpus" \o ToString(Len(BoundOrEnv(d, env, i, fn.rescpus).a)))>> ELSE <<>>
 InternalAtoms(fn, t) ==
     LET ks == SelectSeq([k \in DOMAIN t |-> k], LAMBDA k : ~ExtMask(fn)[k]) IN [m \in DOMAIN ks |-> IdxAtom(t[ks[m]])]
 
@@ -109,7 +115,7 @@ OutVal(d, env, i, o) ==
     THEN LET sh == OutShape(d, env, i)
          IN  BuildArr(sh, <<>>, [t \in IndexSet(sh) |->
                  IF ReturnsNone(d, i) THEN NoneT                       \* None is an ordinary (stored, reloadable) element value
-                 ELSE Term(o, ElemArgs(d, env, i, t) \o InternalAtoms(fn, t))])
+                 ELSE Term(o, ElemArgs(d, env, i, t) \o ResAtoms(d, env, i) \o InternalAtoms(fn, t))])
     ELSE LET args == [k \in DOMAIN fn.params |-> BoundOrEnv(d, env, i, fn.params[k])]
          IN  IF ReturnsNone(d, i) THEN NoneT
              ELSE IF Len(fn.internal) = 0 THEN Term(o, args)
